@@ -21,7 +21,7 @@ import (
 )
 
 func init() {
-	pbt.Describe("read: (log seed, tree size N biased to 2^k+-1 and to sizes whose tree-hash tiles coincide, tile height H in {1,2,3,4,8,10}, a set of in-tree hash positions at any level, 0-3 faults on the tiles actually requested). Faults: any single bit, swap/duplicate hashes, another tile of the same tree, the same tile of a forked tree sharing a prefix, truncate/extend by a byte or a hash, empty, zeroed, fewer/more result slices. The tile reader serves reference tiles computed from leaf data. Oracle: honest service => exactly the true stored hashes; otherwise an error, or still the true hashes; every (tile,data) handed to SaveTiles is byte-identical to the true tile. enum: every single position x every requested tile x a fixed fault menu for all N up to a bound and H in {1,2,3(,4)}. publish: growth schedules 0=n0<n1<...; a reader that serves only coordinates returned by NewTiles (or the published full tile for a partial request) must satisfy reads of every position of every tree n_i. tiledata/path: ReadTileData/HashFromTile/TileForIndex against the reference, and Tile<->path bijection against an independently written formatter. Non-trivial: read/enum = a delivered tile differs from the truth and is NOT one of the tree-hash tiles, or it is a tree-hash tile shared by two subtree hashes, or (honest) >=3 tiles planned; publish = >=2 growth steps; path = valid tile or accepted string. Distinct by JSON rendering.",
+	pbt.Describe("read: (log seed, tree size N biased to 2^k+-1 and to sizes whose tree-hash tiles coincide, tile height H in {1,2,3,4,8,10}, a set of in-tree hash positions at any level, 0-3 faults on the tiles actually requested). Faults: any single bit, swap/duplicate hashes, another tile of the same tree, the same tile of a forked tree sharing a prefix, truncate/extend by a byte or a hash, empty, zeroed, fewer/more result slices. The tile reader serves reference tiles computed from leaf data. Oracle: honest service => exactly the true stored hashes; otherwise an error, or still the true hashes; every (tile,data) handed to SaveTiles is byte-identical to the true tile. enum: every single position x every requested tile x a fixed fault menu for all N up to a bound and H in {1,2,3(,4)}. publish: growth schedules 0=n0<n1<...; a reader that serves only coordinates returned by NewTiles (or the published full tile for a partial request) must satisfy reads of every position of every tree n_i. tiledata/path: ReadTileData/HashFromTile/TileForIndex against the reference, and Tile<->path bijection against an independently written formatter. Non-trivial: read/enum = a delivered tile differs from the truth and is NOT one of the tree-hash tiles, or it is a tree-hash tile shared by two subtree hashes, or (honest) >=3 tiles planned; publish = >=2 growth steps; path = valid tile or accepted string. Distinct by JSON rendering. The hashes the first ReadHashes returned are compared with the reference again after the second read on the same reader.",
 		"merkleref reference tiles are correct; SHA-256 collision-free", "tree has at least one record; requested positions are non-negative", "ParseTilePath accepting L>63 (outside Tile's documented range) is not asserted against")
 }
 
@@ -346,6 +346,8 @@ func checkRead(c readCase) pbt.Result {
 		calls = append(calls, c.Coords2)
 		r.Classes = append(r.Classes, "two reads on one reader")
 	}
+	var heldGot []tlog.Hash // the first read's result, held across the second read
+	var heldWant []merkleref.Hash
 	for ci, coords := range calls {
 		var indexes []int64
 		var want []merkleref.Hash
@@ -355,7 +357,12 @@ func checkRead(c readCase) pbt.Result {
 		}
 		servedBefore, savedBefore := len(rd.served), len(rd.saved)
 		rd.reqErr, rd.slicesD = false, 0
+		keepIdx := append([]int64(nil), indexes...)
 		got, err := thr.ReadHashes(indexes)
+		if fmt.Sprint(indexes) != fmt.Sprint(keepIdx) {
+			r.Fail = pbt.Failf("reader-writes-indexes", "ReadHashes changed the caller's index slice: %v -> %v", keepIdx, indexes)
+			return r
+		}
 
 		// classify what was delivered in this call
 		anyDiff := false
@@ -412,6 +419,15 @@ func checkRead(c readCase) pbt.Result {
 		}
 		if anyDiff {
 			r.Classes = append(r.Classes, "corruption did not affect the result (accepted, result true)")
+		}
+		if ci == 0 {
+			heldGot, heldWant = got, want
+		}
+	}
+	for i := range heldGot {
+		if merkleref.Hash(heldGot[i]) != heldWant[i] {
+			r.Fail = pbt.Failf("result-changed-later", "N=%d H=%d: the hashes the first ReadHashes returned were true when returned and are not after the second read on the same reader (entry %d)", c.N, c.H, i)
+			return r
 		}
 	}
 	return r
